@@ -219,8 +219,8 @@ def NumErr.text : NumErr → Bytes
   | .base b => B "invalid base " ++ intToDec b
 
 /-- `(*strconv.NumError).Error()`. -/
-def numErrorText (E : Env) (fn : String) (s : Bytes) (e : NumErr) : Bytes :=
-  B "strconv." ++ B fn ++ B ": parsing " ++ quote E s ++ B ": " ++ e.text
+def numErrorText (E : Env) (fn : Bytes) (s : Bytes) (e : NumErr) : Bytes :=
+  B "strconv." ++ fn ++ B ": parsing " ++ quote E s ++ B ": " ++ e.text
 
 /-- `strconv.ParseBool`. -/
 def parseBool (s : Bytes) : Option Bool :=
